@@ -137,6 +137,7 @@ struct Runtime {
     int rr_next = 0;
     long fault_counter = 0;
     std::vector<FreedBlock> freed;
+    std::vector<MutexCore*> mutexes;   // modelled mutexes constructed during the case, in construction order
     // pct
     std::vector<long> pct_change;
     int pct_low = 0;
@@ -212,6 +213,8 @@ inline void switch_to_fiber(Fiber* to) {
 struct MutexCore {
     int owner = -1;
     int nshared = 0;
+    long excl_acqs = 0;                // number of exclusive acquisitions so far
+    long shared_acqs = 0;
     uint8_t shared_by[MAXF] = {0};
     VC L, Lr;
     bool can_acquire_excl() const { return owner < 0 && nshared == 0; }
@@ -513,6 +516,7 @@ inline Result run(const SchedSpec& spec, std::function<void()> body) {
     R.rr_mode = false; R.rr_next = 0;
     R.fault_counter = 0;
     R.freed.clear();
+    R.mutexes.clear();
     R.pct_change.clear(); R.pct_low = 0;
     if (spec.mode == 1) {
         for (size_t i = MAXF; i + 1 < spec.bytes.size() && R.pct_change.size() < 4; i += 2)
